@@ -79,10 +79,14 @@ class KernelJobs:
         else:
             k = self.k
             up = 2 if self.op.r("IFM_UPSCALE") else 1
+            # kernels larger than the sub-kernel limit are applied in several passes over separately fetched IFM blocks; the fetch
+            # that the block dependency has to order is taken to cover at most 32 rows x 64 columns of kernel extent (the bound
+            # the generator itself uses - deliberately weak, see DESIGN.md C04): later passes start after more than MAX_BLOCKDEP jobs
+            dkh, dkw = min(k["dkh"], 32), min(k["dkw"], 64)
             fy = y0 * k["sy"] - self.op.r("IFM_PAD_TOP")
-            ly = (y1 - 1) * k["sy"] - self.op.r("IFM_PAD_TOP") + k["dkh"] - 1
+            ly = (y1 - 1) * k["sy"] - self.op.r("IFM_PAD_TOP") + dkh - 1
             fx = x0 * k["sx"] - self.op.r("IFM_PAD_LEFT")
-            lx = (x1 - 1) * k["sx"] - self.op.r("IFM_PAD_LEFT") + k["dkw"] - 1
+            lx = (x1 - 1) * k["sx"] - self.op.r("IFM_PAD_LEFT") + dkw - 1
             iy0, iy1 = max(fy, 0) // up, min(ly // up, f.height - 1) + 1
             ix0, ix1 = max(fx, 0) // up, min(lx // up, f.width - 1) + 1
         if self.ifm_bd is not None:
